@@ -27,9 +27,10 @@ LITS = {
     'false': ('bool', False), 'qty2': NUM(1.5, u'\u00b0C'),
     'str-esc': ('str', 'q"uo\\te'), 'str-uni': ('str', u'caf\u00e9 \U0001f600'), 'str-nl': ('str', 'two\nlines'),
     'str-blanks': ('str', 'two  blanks'), 'uri-blanks': ('uri', 'a  b'), 'refdis-blanks': ('ref', 'x', 'Dis  play'),
+    'bin': ('bin', 'm'), 'uri-m': ('uri', 'm'), 'bin-mime': ('bin', 'text/plain'),
     'uri-esc': ('uri', 'http://u/`tick'), 'inf': NUM(float('inf')), 'ninf': NUM(float('-inf')), 'refdis': ('ref', 'x', 'Dis play'),
 }
-EXTRA_LITS = ('dt', 'numf', 'neg', 'str2', 'false', 'qty2', 'str-esc', 'str-uni', 'str-nl', 'uri-esc', 'inf', 'ninf', 'str-blanks', 'uri-blanks')
+EXTRA_LITS = ('bin-mime', 'uri-m', 'dt', 'numf', 'neg', 'str2', 'false', 'qty2', 'str-esc', 'str-uni', 'str-nl', 'uri-esc', 'inf', 'ninf', 'str-blanks', 'uri-blanks')
 POOL = {
     # value pool per data tag: covers equal / below / above / other kind / other unit for every literal above
     'a': [None, D.NULL, D.MARKER, NUM(5), NUM(4), NUM(6), NUM(5.0), NUM(2.5), NUM(-3), NUM(5, 'kg'), NUM(4, 'kg'), NUM(6, 'kg'),
@@ -40,7 +41,8 @@ POOL = {
           ('dt', (2021, 1, 1, 0, 0, 0, 0), 0, 'UTC'), ('str', 'hello world'), NUM(1.5, u'\u00b0C'), ('coord', 1.0, 2.0),
           ('str', 'two  blanks'), ('str', 'two blanks'), ('uri', 'a  b'), ('uri', 'a b'),
           ('str', 'q"uo\\te'), ('str', u'caf\u00e9 \U0001f600'), ('str', 'two\nlines'), ('uri', 'http://u/`tick'), NUM(float('inf')),
-          NUM(float('-inf')), NUM(1e300)],
+          NUM(float('-inf')), NUM(1e300), ('bin', 'm'), ('bin', 'a'), ('bin', 'z'), ('uri', 'm'), ('uri', 'a'), ('uri', 'z'),
+          ('bin', 'text/plain'), ('uri', 'text/plain'), ('str', 'text/plain')],
     'r': [None, ('ref', 'x', None), ('ref', 'y', None), ('ref', 'nowhere', None), ('str', 'x'), D.MARKER, NUM(5), ('ref', 'x', 'Dis')],
 }
 POOL['b'] = POOL['a']
@@ -57,7 +59,7 @@ def make_rows(r, n, idkind):
             {'id': mkid('y'), 'a': NUM(6, 'kg'), 'b': ('str', 'z'), 'r': ('ref', 'x', None)}]
     # cross rows: every combination of the values that look alike across kinds (5, 5kg, 5m, ...) on two tags, so that
     # two literals of one filter can interact (a number and a quantity of equal magnitude, equal texts of other kinds)
-    alike = [NUM(5), NUM(5, 'kg'), NUM(5, 'm'), NUM(4, 'kg'), ('str', 'm'), ('uri', 'm'), ('bool', True), NUM(1)]
+    alike = [NUM(5), NUM(5, 'kg'), NUM(5, 'm'), NUM(4, 'kg'), ('str', 'm'), ('uri', 'm'), ('bin', 'm'), ('bool', True), NUM(1)]
     for va in alike:
         for vb in alike:
             rows.append({'a': va, 'b': vb, 'c': va})
@@ -103,7 +105,7 @@ def atoms_all():
     for t in TAGS:
         A += [('has', [t]), ('not', [t])]
         for op in F.OPS:
-            for lk in ('num', 'qty', 'str', 'bool', 'date', 'time', 'uri', 'ref'):
+            for lk in ('num', 'qty', 'str', 'bool', 'date', 'time', 'uri', 'ref', 'bin'):
                 A.append(('cmp', op, [t], LITS[lk]))
     for lk in EXTRA_LITS:
         for op in ('==', '!=', '<', '>='):
